@@ -647,6 +647,14 @@ func (p *Parsed) mutationSites(r *rand.Rand, gi int) []site {
 		case *ast.ForStmt:
 			if as, ok := x.Init.(*ast.AssignStmt); ok && len(as.Rhs) == 1 {
 				add("loop-edit", "non-literal", x, func() {
+					if lit, ok := as.Rhs[0].(*ast.BasicLit); ok && lit.Kind == token.INT {
+						// a literal start becomes the next literal (not the constant expression
+						// `(17) + 1`, which the compiler folds into a literal the default policy may
+						// abstract while the execution-based literal exemption cannot see it)
+						v, _ := intVal(lit)
+						lit.Value = strconv.FormatInt(v+1, 10)
+						return
+					}
 					as.Rhs[0] = &ast.BinaryExpr{X: &ast.ParenExpr{X: as.Rhs[0]}, Op: token.ADD, Y: &ast.BasicLit{Kind: token.INT, Value: "1"}}
 				})
 			}
